@@ -22,6 +22,7 @@ Proof. intros H1 H2 H3 H4 H5 H6 H7 W e. exact (update_min_none n bound nlp tshif
 Print Assumptions c07_eliminated_iff_in_no_row.
 
 From SymfcV Require Import Cutoff CutoffThm.
+From SymfcG Require Import CutoffGen.
 
 (** FCCutoff.combinations2 / combinations3_all / combinations4_all (model Cutoff.cut_combos, compared with
     the implementation entry by entry) list exactly the strictly increasing index tuples of the requested
@@ -47,3 +48,8 @@ Theorem c07_large_cutoff (nr : near) N k c : 1 <= k -> (forall i j, nearb nr i j
   (In c (cut_combos nr N k) <-> In c (entire_combos N k)).
 Proof. exact (cut_combos_all_near nr N k c). Qed.
 Print Assumptions c07_large_cutoff.
+
+(** The methods of FCCutoff that decide which elements exist -- neighbour lists (strict <), the three combination
+    generators and the three masks -- are the shapes the model was written from (whole-method match, regenerated). *)
+Theorem c07_cutoff_methods_in_force : cutoff_methods_as_modelled = true /\ cutoff_comparison_is_strict_less = true.
+Proof. split; reflexivity. Qed.
